@@ -58,7 +58,9 @@ CLAIMED = {
             "Per oracle: C05_random_values_exactly_active (whatever _random_values returns - random search, Hyperband first rounds, Bayesian warm-up - is valued on exactly the active entries, for every sample table, "
             "tried set and seed); C05_grid_combination_valid + C05_grid_trials_valid (every combination of the grid enumeration, hence - by the invariant of C09_invariant(_reload) - every trial the grid oracle holds in "
             "any state of any run, carries a value for exactly the active entries, each taken from [default]+values, and none for a name outside the space). Domain membership of what prob_to_value produces: C14. "
-            "PARTIAL: Hyperband's copy of the parent's values and the Bayesian vector-to-values step are not modelled: on every run each trial issued by the real "
+            "C05_bayes_vector_provenance / C05_bayes_inactive_entry_skips: for ANY space (shared names allowed) and vector, every value _vector_to_values returns was assigned by an entry of that very name and is that entry's own "
+            "prob_to_value of its own component, its fixed value or its default; an entry inactive at its turn changes nothing (BayesVec.v, compared with the real method on generated spaces and vectors on every run). "
+            "PARTIAL: Hyperband's copy of the parent's values and the Gaussian-process side of the Bayesian oracle are not modelled: on every run each trial issued by the real "
             "random/grid/Hyperband/Bayesian oracles over generated spaces (all kinds, conditions to depth 4, names shared between exclusive branches with equal or different domains, spaces growing during the search) is checked for exact coverage and domain.",
             "Trusted: Coq kernel; the container model is tied to HyperParameters by the C13 correspondence; distinct names assumed; Bayesian oracle runs the real GP.", "DESIGN.md section 6 C05"),
     "C12": ("differential replay in fresh interpreters (different PYTHONHASHSEED and global seeds) + the models being functions of the seeded sample table only",
